@@ -20,6 +20,13 @@ func (r *Router) parseParamRoute(route *Route) (first string) {
 		regexStr := checkAndParseOptional(quotePointChar(path))
 		route.regex = regexp.MustCompile("^" + regexStr + "$")
 		route.goodRegexGroups()
+
+		// collect the first node like for routes with vars. "/blog/list[/all]" -> "blog"
+		if optPos := strings.IndexByte(path, '['); optPos > 1 {
+			if pos := strings.IndexByte(path[1:optPos], '/'); pos > 0 {
+				first = path[1 : pos+1]
+			}
+		}
 		return
 	}
 
